@@ -375,7 +375,8 @@ impl MinCostFlowSolver {
         ]
         .into_iter()
         .max()
-        .unwrap();
+        .unwrap()
+        .max(1); // at least 1: if all cost rates are zero, spawning a vehicle must still not be free
 
         // spawning cost = costliest activity * (3 * planning days) * total_lower_bound.
         // This suffices, as the total non-spawning costs for the trivial schedule, where each vehicle do exactly one
